@@ -155,7 +155,12 @@ fn parse_path(
                         ident.is_const(),
                     ))
                 }
-                x => unimplemented!("Cannot parse a path from {x:?}"),
+                // `(path)[i] = v` / `(path).f = v`: the grammar lets a parenthesised path start a place, nothing here can walk one
+                _ => Err(vec![new_err(
+                    primary.as_span(),
+                    &user_data.get_source_file_name(),
+                    "a parenthesised expression cannot start the target of an assignment (write the path without the parentheses)".into(),
+                )]),
             }
         })
         .map_postfix(|lhs, op| match op.as_rule() {
